@@ -242,7 +242,10 @@ def convertall(table, *args, **kwargs):
     """
 
     # TODO don't read the data twice!
-    return convert(table, fieldnames(table), *args, **kwargs)
+    # N.B., select the fields by position, so that fields sharing a name are
+    # all converted
+    indices = list(range(len(fieldnames(table))))
+    return convert(table, indices, *args, **kwargs)
 
 
 Table.convertall = convertall
